@@ -1,39 +1,45 @@
 // C19 — document collections store and find documents faithfully.
 //
-// Level: model checking. The real embedded/document.Engine (on a real store in /dev/shm) is driven through
-// bounded exhaustive operation histories and compared with a reference model = a plain Go list of JSON
-// documents with their revisions.
+// Level: model checking. The real embedded/document.Engine (on a real store in /dev/shm) is driven through bounded
+// exhaustive operation histories and compared with a reference model = a plain Go list of JSON documents with
+// their revisions.
 //
-// Collections (identical operations on all of them, schema n INTEGER, s STRING, b BOOLEAN, d DOUBLE, "o.x" INTEGER):
+// Collections (identical operations on all, schema n INTEGER, s STRING, b BOOLEAN, d DOUBLE, "o.x" INTEGER):
 //
-//	c_plain no secondary index | c_ix one index per field, created before any data | c_late the indexes are
-//	created after the history, just before the observations | c_mid indexes added / removed by operations of
-//	the history | c_u a UNIQUE index on s (own reference model: duplicates must be refused)
+//	c_plain no secondary index | c_ix one index per field, created before any data | c_late the indexes are created
+//	after the history, just before the observations | c_mid indexes added / removed by operations of the history |
+//	c_u a UNIQUE index on s (own reference model: duplicates must be refused)
 //
-// Part A (one fixed history holding the whole 13-document alphabet: missing / null / nested / unicode / numeric
-// edge values / extra unindexed fields, replaced and deleted documents): the complete query grammar —
-// every operator x field x constant of the domain, each under 7 orderings, every AND pair and OR pair of two
-// comparisons, (a AND b) OR c over a reduced set, paging (page size 1, 2, all pages, both by offset and on one open
-// reader), Limit, CountDocuments, rejected documents and rejected queries.
-// Part B: ALL histories up to depth 3 (thorough: 4) over 13 operations {insert x4, insert-many x2, replace by
-// query, replace by id, delete by query, delete oldest (order by _id limit 1), add indexes, remove indexes, failing
-// insert-many} for several 4-document subsets; after the last step of every history the (smaller) grammar built from
-// the subset's value domain is swept on every collection. Every prefix is itself a history, so every state is swept.
-// Part C: pkg/database level, all histories up to depth 2 (thorough 3) over 4 operations: ProofDocument for every
-// revision x every known state must be accepted by pkg/verification.VerifyDocument and return the true database
-// state; every alteration from an explicit operator set must be rejected unless the altered claim is still true.
+// Part A — one fixed 28-operation history holding the whole 13-document alphabet (everything present / missing /
+// null, zero values, negative, unicode, newline, nested null, nested sibling, non-object parent, literal dotted key,
+// +-2^53, 1e308, denormal, -0.0, non-integral and out-of-range numbers in an INTEGER field, unindexed extras,
+// replaced and deleted documents, six documents that must be refused): the complete query grammar — every operator
+// x field x constant of the domain (+ null), each under 7 orderings; every field as sort key; AND pairs and OR pairs
+// of two comparisons; (a AND b) OR c; paging (page size 1 and 2, all pages, by offset and on one open reader),
+// Limit, CountDocuments (also with offset); queries that must be refused.
+// Part B — ALL histories up to a depth (quick 3, thorough 4; no pruning) over 12 operations {insert x4, insert-many
+// x2, replace by query, replace by id (document carrying _id), delete by query, delete oldest (order by _id limit
+// 1), toggle indexes of c_mid, insert-many with one invalid document} for several 4-document configurations. After
+// the last step of every history (every prefix is itself a history, so after every step) the configuration's grammar
+// is swept on all five collections, followed by id lookup, revision and audit trail of every document ever inserted.
+// Part C — pkg/database level: all histories up to depth 2 (thorough 3) over 4 operations; ProofDocument of every
+// revision x every known state must be accepted by pkg/verification.VerifyDocument and yield the true database state;
+// every alteration from an explicit operator set must be refused unless the altered claim is still true.
 //
-// Oracles: (1) reference filter in three-valued form: a document MUST be returned when the filter certainly holds,
-// MUST NOT be returned when it certainly does not; comparisons the property does not define (field missing/null with
-// an operator other than EQ/LIKE, null constants) are only compared between the twins. (2) identical results on
-// c_plain / c_ix / c_late / c_mid for every query (lists when totally ordered, multisets otherwise). (3) every returned
-// document equals the stored one bit for bit (+ _id); id lookup; revision through GetEncodedDocument / replace
-// result / audit, and through the search result itself. (4) c_u: duplicates refused, refused operations change
-// nothing. (5) AuditDocument lists every revision in order with its content (asc, desc, paged, without payload).
-// (6) Part C above. Ordered results must be sorted w.r.t. the reference order (ties by _id when requested).
+// Oracles. (1) reference filter in three-valued form: a document MUST be returned when the filter certainly holds and
+// MUST NOT be returned when it certainly does not; what the property does not define (field missing/null under an
+// operator other than EQ/LIKE, null constants, position of nulls in ordered results, two missing values under a
+// UNIQUE index) is compared between the twin collections only. (2) identical results on c_plain / c_ix / c_late /
+// c_mid for every query (lists when totally ordered, multisets otherwise). (3) every returned document equals the
+// stored one bit for bit (+ _id); id lookup; revision through GetEncodedDocument, the replace result, the audit trail
+// and the search result itself. (4) c_u: duplicates refused; refused operations change nothing (all collections).
+// (5) AuditDocument: every revision, in order, with its content, user and increasing tx (ascending, descending, paged,
+// without payload). (6) proofs, part C. Ordered results must respect the reference order (ties by _id if requested).
 //
-// A violation is reported only on a minimal history: if the same (class, query) still fails after removing any one
-// operation of the history it is left to that shorter history (which is itself explored).
+// Reporting: a wrong query result is reported under its reduced query (comparisons and ordering dropped while the
+// same class persists) and only on a minimal history (if the same violation shows after removing any one operation
+// it is left to that shorter history, which is explored too). Known root causes get their own class prefix
+// (negzero-, int-coercion-, like-nonascii-, like-newline-), see cause().
 package main
 
 import (
@@ -78,21 +84,21 @@ var fields = []fdef{{"n", protomodel.FieldType_INTEGER}, {"s", protomodel.FieldT
 var ftype = map[string]protomodel.FieldType{}
 
 var alphabet = map[string]docT{
-	"A": {"n": 1.0, "s": "a", "b": true, "d": 1.5, "o": obj{"x": 7.0}},                                          // everything present
-	"B": {},                                                                                                    // everything missing
-	"C": {"n": nil, "s": nil, "b": nil, "d": nil, "o": nil},                                                     // everything null
-	"D": {"n": 0.0, "s": "", "b": false, "d": 0.0, "o": obj{"x": 0.0}},                                          // zero values
-	"E": {"n": -1.0, "s": "héllo ✓ 日本", "d": -1.5, "o": obj{"x": nil, "y": "deep"}},                             // negative, unicode, nested null
-	"F": {"n": two53, "s": "b", "d": 1e308, "o": obj{"y": 1.0}},                                                // largest exact integer, nested sibling only
-	"G": {"n": 1.0, "s": "a", "d": math.Copysign(0, -1)},                                                       // negative zero; collides with A on n, s
-	"H": {"n": 1.0, "s": "a", "b": true, "extra": []any{1.0, "a", nil, obj{"k": 1.0}}, "z": obj{"deep": obj{"er": []any{}}}}, // unindexed extras; collides with A
-	"I": {"o": 5.0, "s": "A"},                                                                                  // o is not an object
-	"J": {"n": -two53, "s": "a\nb", "b": false, "d": 5e-324, "o": obj{"x": -1.0}},                               // smallest exact integer, newline, denormal
-	"K": {"n": 1.5, "s": "k"},                                                                                  // non-integral value in an INTEGER field (part A only)
-	"L": {"n": 9223372036854775808.0, "s": "l"},                                                                // 2^63 in an INTEGER field (part A only)
-	"M": {"o.x": 3.0, "s": "m"},                                                                                // literal dotted key: not the nested path
-	"R1": {"n": 5.0, "s": "r", "d": 2.5, "o": obj{"x": 7.0}},                                                   // replacement documents
-	"R2": {"n": 1.0, "s": "q", "b": false},
+	"A":   {"n": 1.0, "s": "a", "b": true, "d": 1.5, "o": obj{"x": 7.0}},                                                       // everything present
+	"B":   {},                                                                                                                  // everything missing
+	"C":   {"n": nil, "s": nil, "b": nil, "d": nil, "o": nil},                                                                  // everything null
+	"D":   {"n": 0.0, "s": "", "b": false, "d": 0.0, "o": obj{"x": 0.0}},                                                       // zero values
+	"E":   {"n": -1.0, "s": "héllo ✓ 日本", "d": -1.5, "o": obj{"x": nil, "y": "deep"}},                                          // negative, unicode, nested null
+	"F":   {"n": two53, "s": "b", "d": 1e308, "o": obj{"y": 1.0}},                                                              // largest exact integer, nested sibling only
+	"G":   {"n": 1.0, "s": "a", "d": math.Copysign(0, -1)},                                                                     // negative zero; collides with A on n, s
+	"H":   {"n": 1.0, "s": "a", "b": true, "extra": []any{1.0, "a", nil, obj{"k": 1.0}}, "z": obj{"deep": obj{"er": []any{}}}}, // unindexed extras; collides with A
+	"I":   {"o": 5.0, "s": "A"},                                                                                                // o is not an object
+	"J":   {"n": -two53, "s": "a\nb", "b": false, "d": 5e-324, "o": obj{"x": -1.0}},                                            // smallest exact integer, newline, denormal
+	"K":   {"n": 1.5, "s": "k"},                                                                                                // non-integral value in an INTEGER field (part A only)
+	"L":   {"n": 9223372036854775808.0, "s": "l"},                                                                              // 2^63 in an INTEGER field (part A only)
+	"M":   {"o.x": 3.0, "s": "m"},                                                                                              // literal dotted key: not the nested path
+	"R1":  {"n": 5.0, "s": "r", "d": 2.5, "o": obj{"x": 7.0}},                                                                  // replacement documents
+	"R2":  {"n": 1.0, "s": "q", "b": false},
 	"BAD": {"n": "str"},
 }
 
@@ -515,6 +521,7 @@ const (
 	kDeleteOldest
 	kAddIx
 	kRemIx
+	kToggleIx // add the indexes when absent, remove them when present
 )
 
 type opDef struct {
@@ -526,6 +533,7 @@ type opDef struct {
 
 type config struct {
 	Name  string
+	Depth [2]int
 	Docs  []string // the 4 single-insert documents
 	Many  [][]string
 	RepQ  atom
@@ -546,8 +554,7 @@ func (cf *config) build() {
 		opDef{Name: "replace-id(first->R2)", Kind: kReplaceID, Labels: []string{"R2"}},
 		opDef{Name: "delete(" + cf.DelQ.String() + ")", Kind: kDeleteQ, Q: query{G: [][]atom{{cf.DelQ}}}},
 		opDef{Name: "delete-oldest", Kind: kDeleteOldest, Q: query{O: []ordc{{"_id", false}}, Limit: 1}},
-		opDef{Name: "add-indexes", Kind: kAddIx},
-		opDef{Name: "remove-indexes", Kind: kRemIx},
+		opDef{Name: "toggle-indexes", Kind: kToggleIx},
 		opDef{Name: "insmany(" + cf.Docs[1] + ",BAD)", Kind: kInsert, Labels: []string{cf.Docs[1], "BAD"}},
 	)
 }
@@ -562,8 +569,10 @@ func (cf *config) names(path []int) string {
 
 // item: one query of a sweep and what is done with it.
 type item struct {
-	Q      query
-	Paging bool
+	Q       query
+	Paging  bool // page it (only totally ordered queries)
+	NoCount bool // skip CountDocuments
+	Light   bool // part of the light sweep run after an operation that did not change the reference state
 }
 
 // domain: per field the distinct non-null values of the given documents (+ extra constants), sorted.
@@ -621,75 +630,52 @@ func atomsOf(dom map[string][]any, withNull bool, patterns []string) []atom {
 	return out
 }
 
-func orderings(f string, full bool) [][]ordc {
-	o := [][]ordc{nil, {{f, false}, {"_id", false}}, {{f, true}, {"_id", true}}}
-	if full {
-		o = append(o, []ordc{{f, false}}, []ordc{{f, true}}, []ordc{{f, false}, {"_id", true}}, []ordc{{"_id", true}})
-	}
-	return o
+func orderings(f string) [][]ordc {
+	return [][]ordc{nil, {{f, false}, {"_id", false}}, {{f, true}, {"_id", true}}, {{f, false}}, {{f, true}}, {{f, false}, {"_id", true}}, {{"_id", true}}}
 }
 
-// grammar builds the sweep of a configuration. full = part A.
-func grammar(dom map[string][]any, full, allPairs bool) []item {
-	var items []item
-	pats := likePatterns
-	if !full {
-		pats = likePatterns[:4]
-	}
-	atoms := atomsOf(dom, true, pats)
-	items = append(items, item{Q: query{}}, item{Q: query{O: []ordc{{"_id", false}}}, Paging: true}, item{Q: query{O: []ordc{{"_id", true}}}, Paging: true})
-	for i, a := range atoms {
-		for k, o := range orderings(a.F, full) {
-			// paging on a spread of the totally ordered single comparisons
-			items = append(items, item{Q: query{G: [][]atom{{a}}, O: o}, Paging: k > 0 && k < 3 && (full || i%7 == 0)})
+// grammarA: the complete grammar of part A. Every comparison under 7 orderings (paging on the two totally ordered,
+// index-covered ones), every field as sort key, AND / OR of two comparisons (thorough: all pairs; quick: pairs over
+// 8 comparisons per field + 7 special ones), (a AND b) OR c over 9 comparisons.
+func grammarA(dom map[string][]any, allPairs bool) []item {
+	atoms := atomsOf(dom, true, likePatterns)
+	items := []item{{Q: query{}}, {Q: query{O: []ordc{{"_id", false}}}, Paging: true}, {Q: query{O: []ordc{{"_id", true}}}, Paging: true}}
+	for _, a := range atoms {
+		for k, o := range orderings(a.F) {
+			items = append(items, item{Q: query{G: [][]atom{{a}}, O: o}, Paging: k == 1 || k == 2})
 		}
 	}
-	for _, f := range fields { // unfiltered, ordered by each field
-		for _, o := range orderings(f.Name, true)[1:] {
+	for _, f := range fields {
+		for _, o := range orderings(f.Name)[1:] {
 			items = append(items, item{Q: query{O: o}, Paging: len(o) == 2})
 		}
 	}
-	// pairs
 	pa := atoms
 	if !allPairs {
-		pa = nil
+		pa = []atom{{"s", LIKE, "a%"}, {"s", NLIK, "%b"}, {"s", LIKE, "_"}, {"n", LT, nil}, {"d", NE, dom["d"][0]}, {"d", EQ, 0.0}, {"n", EQ, 1.5}}
 		for _, f := range fields {
-			v := dom[f.Name]
-			if len(v) == 0 {
-				continue
-			}
-			pa = append(pa, atom{f.Name, EQ, v[0]}, atom{f.Name, GE, v[len(v)/2]})
-			if full { // part A, quick tier: 8 comparisons per field instead of all of them
-				pa = append(pa, atom{f.Name, NE, v[len(v)/2]}, atom{f.Name, LT, v[len(v)-1]}, atom{f.Name, LE, v[0]}, atom{f.Name, GT, v[len(v)/3]}, atom{f.Name, EQ, nil}, atom{f.Name, GE, nil})
-			}
-		}
-		pa = append(pa, atom{"s", LIKE, "a%"}, atom{"n", LT, nil}, atom{"d", NE, dom["d"][0]})
-		if full {
-			pa = append(pa, atom{"s", NLIK, "%b"}, atom{"s", LIKE, "_"}, atom{"d", EQ, 0.0}, atom{"n", EQ, 1.5})
+			v, n := dom[f.Name], f.Name
+			pa = append(pa, atom{n, EQ, v[0]}, atom{n, GE, v[len(v)/2]}, atom{n, NE, v[len(v)/2]}, atom{n, LT, v[len(v)-1]}, atom{n, LE, v[0]}, atom{n, GT, v[len(v)/3]}, atom{n, EQ, nil}, atom{n, GE, nil})
 		}
 	}
 	for i, a := range pa {
-		for j, b := range pa {
-			if j < i {
-				continue
-			}
+		for j := i; j < len(pa); j++ {
+			b := pa[j]
 			items = append(items, item{Q: query{G: [][]atom{{a, b}}}}, item{Q: query{G: [][]atom{{a}, {b}}}})
-			if (i+j)%5 == 0 { // ordered by the first field: index range scan + residual filter
-				items = append(items, item{Q: query{G: [][]atom{{a, b}}, O: []ordc{{a.F, false}, {"_id", false}}}, Paging: !full && (i+j)%10 == 0},
-					item{Q: query{G: [][]atom{{a}, {b}}, O: []ordc{{b.F, true}, {"_id", true}}}})
+			if (i+j)%5 == 0 { // ordered by one of the fields: index range scan + residual filter
+				items = append(items, item{Q: query{G: [][]atom{{a, b}}, O: []ordc{{a.F, false}, {"_id", false}}}}, item{Q: query{G: [][]atom{{a}, {b}}, O: []ordc{{b.F, true}, {"_id", true}}}})
 			}
 		}
 	}
-	// (a AND b) OR c over a reduced set
 	var red []atom
 	for i := 0; i < len(pa) && len(red) < 9; i += max(1, len(pa)/9) {
 		red = append(red, pa[i])
 	}
 	for i, a := range red {
-		for j, b := range red {
+		for j := i + 1; j < len(red); j++ {
 			for k, cc := range red {
-				if i < j && k != i && k != j {
-					items = append(items, item{Q: query{G: [][]atom{{a, b}, {cc}}}})
+				if k != i && k != j {
+					items = append(items, item{Q: query{G: [][]atom{{a, red[j]}, {cc}}}})
 				}
 			}
 		}
@@ -697,13 +683,51 @@ func grammar(dom map[string][]any, full, allPairs bool) []item {
 	return items
 }
 
+// stateGrammar: the sweep run after every history of part B: per field and constant of the configuration's domain
+// (+ null) EQ unordered (secondary index by equality), LT ordered ascending and GE ordered descending (index range
+// scans), the other operators on one constant, LIKE, every field as sort key, AND / OR pairs over 6 comparisons.
+func stateGrammar(dom map[string][]any) []item {
+	one := func(a atom) [][]atom { return [][]atom{{a}} }
+	items := []item{{Q: query{}, Light: true}}
+	var pa []atom
+	for fi, f := range fields {
+		n := f.Name
+		asc, desc := []ordc{{n, false}, {"_id", false}}, []ordc{{n, true}, {"_id", true}}
+		for _, v := range append(append([]any{}, dom[n]...), nil) {
+			items = append(items, item{Q: query{G: one(atom{n, EQ, v})}, Light: true},
+				item{Q: query{G: one(atom{n, LT, v}), O: asc}, NoCount: true}, item{Q: query{G: one(atom{n, GE, v}), O: desc}, NoCount: true})
+		}
+		if v := dom[n]; len(v) > 0 {
+			items = append(items, item{Q: query{G: one(atom{n, NE, v[len(v)/2]})}}, item{Q: query{G: one(atom{n, LE, v[0]})}}, item{Q: query{G: one(atom{n, GT, v[0]})}})
+			if len(pa) < 6 {
+				pa = append(pa, atom{n, EQ, v[0]}, atom{n, []protomodel.ComparisonOperator{GE, LT, NE}[fi%3], v[len(v)/2]})
+			}
+		}
+		items = append(items, item{Q: query{O: asc}, NoCount: true, Paging: fi == 0}, item{Q: query{O: desc}, NoCount: true, Paging: fi == 1})
+	}
+	for _, a := range []atom{{"s", LIKE, "a%"}, {"s", NLIK, "a%"}, {"s", LIKE, "%"}, {"s", LIKE, "_"}} {
+		items = append(items, item{Q: query{G: one(a)}})
+	}
+	for i, a := range pa {
+		for j := i + 1; j < len(pa); j++ {
+			b := pa[j]
+			items = append(items, item{Q: query{G: [][]atom{{a, b}}}}, item{Q: query{G: [][]atom{{a}, {b}}}})
+			if (i+j)%3 == 0 {
+				items = append(items, item{Q: query{G: [][]atom{{a, b}}, O: []ordc{{a.F, false}, {"_id", false}}}, NoCount: true},
+					item{Q: query{G: [][]atom{{a}, {b}}, O: []ordc{{b.F, true}, {"_id", true}}}, NoCount: true})
+			}
+		}
+	}
+	return items
+}
+
+// Depth: history depth bound per tier {quick, thorough}; 0 = configuration not run in that tier.
 var configs = []*config{
-	{Name: "ABDH", Docs: []string{"A", "B", "D", "H"}, Many: [][]string{{"A", "B"}, {"D", "D"}}, RepQ: atom{"s", EQ, "a"}, DelQ: atom{"n", EQ, 1.0}},
-	{Name: "ACEG", Docs: []string{"A", "C", "E", "G"}, Many: [][]string{{"A", "C"}, {"E", "E"}}, RepQ: atom{"n", EQ, 1.0}, DelQ: atom{"s", EQ, "a"}},
-	{Name: "DFIJ", Docs: []string{"D", "F", "I", "J"}, Many: [][]string{{"D", "F"}, {"I", "I"}}, RepQ: atom{"b", EQ, false}, DelQ: atom{"o.x", EQ, 0.0}},
-	// thorough only
-	{Name: "AEHM", Docs: []string{"A", "E", "H", "M"}, Many: [][]string{{"A", "E"}, {"H", "H"}}, RepQ: atom{"o.x", EQ, 7.0}, DelQ: atom{"b", EQ, true}},
-	{Name: "BCGJ", Docs: []string{"B", "C", "G", "J"}, Many: [][]string{{"B", "C"}, {"G", "G"}}, RepQ: atom{"s", EQ, "a\nb"}, DelQ: atom{"n", EQ, 1.0}},
+	{Name: "ABDH", Depth: [2]int{3, 4}, Docs: []string{"A", "B", "D", "H"}, Many: [][]string{{"A", "B"}, {"H", "A"}}, RepQ: atom{"s", EQ, "a"}, DelQ: atom{"n", EQ, 1.0}},
+	{Name: "ACEG", Depth: [2]int{3, 4}, Docs: []string{"A", "C", "E", "G"}, Many: [][]string{{"A", "C"}, {"E", "E"}}, RepQ: atom{"n", EQ, 1.0}, DelQ: atom{"s", EQ, "a"}},
+	{Name: "DFIJ", Depth: [2]int{2, 3}, Docs: []string{"D", "F", "I", "J"}, Many: [][]string{{"D", "F"}, {"I", "I"}}, RepQ: atom{"b", EQ, false}, DelQ: atom{"o.x", EQ, 0.0}},
+	{Name: "AEHM", Depth: [2]int{0, 3}, Docs: []string{"A", "E", "H", "M"}, Many: [][]string{{"A", "E"}, {"H", "H"}}, RepQ: atom{"o.x", EQ, 7.0}, DelQ: atom{"b", EQ, true}},
+	{Name: "BCGJ", Depth: [2]int{0, 3}, Docs: []string{"B", "C", "G", "J"}, Many: [][]string{{"B", "C"}, {"G", "G"}}, RepQ: atom{"s", EQ, "a\nb"}, DelQ: atom{"n", EQ, 1.0}},
 }
 
 // ---------- harness ----------
@@ -721,7 +745,6 @@ type found struct {
 }
 
 type H struct {
-	cf      *config
 	dir     string
 	st      *store.ImmuStore
 	e       *document.Engine
@@ -738,10 +761,10 @@ type H struct {
 func storeOpts() *store.Options {
 	return store.DefaultOptions().WithSynced(false).WithMultiIndexing(true).
 		WithLogger(logger.NewMemoryLoggerWithLevel(logger.LogError)).
-		WithFileSize(1 << 16).WithMaxTxEntries(128).WithMaxKeyLen(1024).WithMaxValueLen(1 << 13).WithMaxConcurrency(4).
+		WithFileSize(1 << 16).WithMaxTxEntries(64).WithMaxKeyLen(1024).WithMaxValueLen(1 << 13).WithMaxConcurrency(4).
 		WithMaxActiveTransactions(8).WithTxLogCacheSize(8).WithVLogCacheSize(0).WithWriteBufferSize(1 << 14).
 		WithAHTOptions(store.DefaultAHTOptions().WithWriteBufferSize(4096)).
-		WithIndexOptions(store.DefaultIndexOptions().WithFlushBufferSize(4096).WithCacheSize(1 << 22))
+		WithIndexOptions(store.DefaultIndexOptions().WithFlushBufferSize(4096).WithCacheSize(1 << 22).WithMaxBulkSize(1))
 }
 
 func protoFields() []*protomodel.Field {
@@ -753,7 +776,7 @@ func protoFields() []*protomodel.Field {
 }
 
 func newH(cf *config) *H {
-	h := &H{cf: cf, dir: lib.Scratch("c19"), tm: &model{}, um: &model{}, stats: map[string]int64{}}
+	h := &H{dir: lib.Scratch("c19"), tm: &model{}, um: &model{}, stats: map[string]int64{}}
 	var err error
 	if h.st, err = store.Open(h.dir, storeOpts()); err != nil {
 		panic(err)
@@ -791,10 +814,12 @@ func (h *H) rep(class, what, detail string) {
 // settle waits until the asynchronous indexer has caught up (inserts run with "unsafe MVCC" against whatever is
 // indexed; the check explores the sequential behaviour only).
 func (h *H) settle() {
-	cx, cancel := context.WithTimeout(ctx, 60*time.Second)
+	cx, cancel := context.WithTimeout(ctx, 10*time.Minute)
 	defer cancel()
 	if err := h.st.WaitForIndexingUpto(cx, h.st.LastPrecommittedTxID()); err != nil {
-		panic("indexing did not catch up: " + err.Error())
+		// never a violation (no wall-clock oracle): the history is abandoned and the run is marked incomplete
+		c.CapHit("indexer did not catch up within 10 minutes (" + err.Error() + "): history abandoned")
+		h.stop = true
 	}
 }
 
@@ -897,16 +922,26 @@ func (h *H) apply(op opDef, m *model, cs []*coll, unique bool) {
 	case kDeleteQ:
 		matched = match(op.Q, cs[0])
 	case kDeleteOldest:
+		for _, cl := range cs {
+			if !sort.StringsAreSorted(cl.IDs) { // generated ids out of insertion order (clock step, counter wrap): "oldest" is ambiguous
+				h.stats["nonmonotone_ids_history_abandoned"]++
+				h.stop = true
+				return
+			}
+		}
 		for k, d := range m.Docs {
 			if d.live() {
 				matched = []int{k}
 				break
 			}
 		}
-	case kAddIx, kRemIx:
+	case kAddIx, kRemIx, kToggleIx:
 		for _, cl := range cs {
 			if cl.Name != "c_mid" {
 				continue
+			}
+			if op.Kind == kToggleIx {
+				op.Kind = map[bool]opKind{false: kAddIx, true: kRemIx}[cl.indexed]
 			}
 			for _, f := range fields {
 				var err error
@@ -1308,10 +1343,12 @@ func (h *H) evalQ(gs []group, it item) map[string]string {
 			if len(r.ords) > 0 {
 				h.stats["nonempty_results"]++
 			}
-			n, err := h.e.CountDocuments(ctx, q.proto(cl.Name), 0)
-			h.queries++
-			if err != nil || n != int64(len(r.ords)) {
-				add("count-mismatch", cl.Name, fmt.Sprintf("CountDocuments=%d err=%v, search returned %d documents", n, err, len(r.ords)))
+			if !it.NoCount {
+				n, err := h.e.CountDocuments(ctx, q.proto(cl.Name), 0)
+				h.queries++
+				if err != nil || n != int64(len(r.ords)) {
+					add("count-mismatch", cl.Name, fmt.Sprintf("CountDocuments=%d err=%v, search returned %d documents", n, err, len(r.ords)))
+				}
 			}
 			if it.Paging && q.total() && q.Limit == 0 {
 				if d := h.paging(cl, q, r); d != "" {
@@ -1519,11 +1556,14 @@ func runNode(cf *config, path []int, shard, nshards int, only []query) (fs []fou
 	h = newH(cf)
 	defer h.close()
 	if p := lib.Catch(func() {
+		stateKey := func() string { return fmt.Sprintf("%s#%s#%v", h.tm.key(), h.um.key(), h.twins[3].indexed) }
+		before := ""
 		for k, o := range path {
 			h.rec = k == len(path)-1
+			before = stateKey()
 			op := cf.ops[o]
 			h.apply(op, h.tm, h.twins, false)
-			if op.Kind != kAddIx && op.Kind != kRemIx {
+			if op.Kind < kAddIx {
 				h.apply(op, h.um, []*coll{h.cu}, true)
 			}
 			if h.stop {
@@ -1543,6 +1583,16 @@ func runNode(cf *config, path []int, shard, nshards int, only []query) (fs []fou
 			for _, q := range only {
 				items = append(items, item{Q: q, Paging: true})
 			}
+		} else if len(path) > 1 && cf != cfgA && before == stateKey() {
+			// the last operation changed nothing in the reference (refused, or no document matched): the full sweep of this
+			// state was run at the parent history; here the light sweep checks that the collections did not change either
+			items = nil
+			for _, it := range cf.items {
+				if it.Light {
+					items = append(items, it)
+				}
+			}
+			h.stats["light_sweeps"]++
 		}
 		h.sweep(gs, items, shard, nshards)
 		if shard == 0 {
@@ -1601,38 +1651,59 @@ func collect(h *H, key string) {
 	c.AddEvals(h.queries)
 }
 
+// nodeFound: what every explored history showed, (cfg, path) -> "class what" set; shorter histories are complete
+// before longer ones start (iterative deepening), so minimality can mostly be decided by lookup.
+var nodeFound sync.Map
+
 // node runs one history and reports its violations when the history is minimal for them; returns stop.
 func node(cf *config, path []int) bool {
 	fs, stop, key, h := runNode(cf, path, 0, 1, nil)
 	collect(h, cf.Name+key)
-	uniq := map[string]bool{}
+	mine := map[string]bool{}
+	var cand []found
 	for _, f := range fs {
-		if uniq[f.Class+f.What] {
+		if mine[f.Class+" "+f.What] {
 			continue
 		}
-		uniq[f.Class+f.What] = true
+		mine[f.Class+" "+f.What] = true
 		if f.Class == "revision-missing-in-search" {
 			violate(lib.Violation{Sig: revSig, Detail: f.Detail, Replay: map[string]any{"part": "B", "cfg": cf.Name, "path": path}})
 			continue
 		}
-		minimal := true
-		isOp := strings.HasPrefix(f.What, "op=")
-		for i := 0; i < len(path) && minimal; i++ {
-			if isOp && (i == len(path)-1 || len(path) == 1) {
-				continue // the failing operation itself stays
+		cand = append(cand, f)
+	}
+	nodeFound.Store(cf.Name+fmt.Sprint(path), mine)
+	// the same violation on a history with one operation removed => not minimal (that history reports it)
+	for i := 0; i < len(path) && len(cand) > 0; i++ {
+		sub := append(append([]int{}, path[:i]...), path[i+1:]...)
+		known, _ := nodeFound.Load(cf.Name + fmt.Sprint(sub))
+		var keep, pending []found
+		only := []query{}
+		for _, f := range cand {
+			switch {
+			case strings.HasPrefix(f.What, "op=") && i == len(path)-1, len(sub) == 0:
+				keep = append(keep, f) // the failing operation itself stays; the empty history shows nothing
+			case known != nil && known.(map[string]bool)[f.Class+" "+f.What]:
+			default:
+				pending = append(pending, f)
+				if f.Q != nil {
+					only = append(only, *f.Q)
+				}
 			}
-			sub := append(append([]int{}, path[:i]...), path[i+1:]...)
-			only := []query{}
-			if f.Q != nil {
-				only = append(only, *f.Q)
-			}
+		}
+		if len(pending) > 0 {
 			fs2, _, _, h2 := runNode(cf, sub, 0, 1, only)
 			collect(h2, "")
-			minimal = !has(fs2, f)
+			for _, f := range pending {
+				if !has(fs2, f) {
+					keep = append(keep, f)
+				}
+			}
 		}
-		if minimal {
-			violate(lib.Violation{Sig: fmt.Sprintf("%s %s history=<%s> cfg=%s", f.Class, f.What, cf.names(path), cf.Name), Detail: f.Detail, Replay: map[string]any{"part": "B", "cfg": cf.Name, "path": path}})
-		}
+		cand = keep
+	}
+	for _, f := range cand {
+		violate(lib.Violation{Sig: fmt.Sprintf("%s %s history=<%s> cfg=%s", f.Class, f.What, cf.names(path), cf.Name), Detail: f.Detail, Replay: map[string]any{"part": "B", "cfg": cf.Name, "path": path}})
 	}
 	c.Distinct(cf.Name + fmt.Sprint(path))
 	return stop
@@ -1660,13 +1731,15 @@ func buildA(full bool) {
 		opDef{Name: "remove-indexes", Kind: kRemIx},
 		opDef{Name: "ins(F)", Kind: kInsert, Labels: []string{"F"}},
 		opDef{Name: "delete(" + mq.String() + ")", Kind: kDeleteQ, Q: query{G: [][]atom{{mq}}}},
+		opDef{Name: "remove-indexes", Kind: kRemIx}, // must fail: no index
 		opDef{Name: "ins(M)", Kind: kInsert, Labels: []string{"M"}},
-		opDef{Name: "add-indexes", Kind: kAddIx})
+		opDef{Name: "add-indexes", Kind: kAddIx},
+		opDef{Name: "add-indexes", Kind: kAddIx}) // must fail: already there
 	for _, l := range []string{"BAD", "BADB", "BADO", "BADID", "BADDOC", "BADS"} { // documents that must be refused
 		cf.ops = append(cf.ops, opDef{Name: "ins(" + l + ")", Kind: kInsert, Labels: []string{l}})
 	}
 	dom := domain(append(labels, "R1"), map[string][]any{"n": {2.0, 1.5, -two53 - 2, 9223372036854775808.0}, "s": {"zz", "h"}, "d": {-1.0, 2.0}, "o.x": {3.0}}, 0)
-	cf.items = grammar(dom, true, full)
+	cf.items = grammarA(dom, full)
 	cfgA = cf
 }
 
@@ -1725,14 +1798,21 @@ func main() {
 	c.Assume("comparisons the property does not define (missing/null field with NE/LT/LE/GT/GE/NOT_LIKE, null constants, position of null values in ordered results, uniqueness of two missing values) are compared between twin collections only")
 	c.Assume("proofs: adversary restricted to the explicit single-field alteration operators; SHA-256 collision resistance")
 	buildA(c.Thorough())
-	cfgs := configs[:3]
-	depth, depthC := 3, 2
+	tier, depthC := 0, 2
 	if c.Thorough() {
-		cfgs, depth, depthC = configs, 4, 3
+		tier, depthC = 1, 3
+	}
+	var cfgs []*config
+	depth := 0
+	for _, cf := range configs {
+		if cf.Depth[tier] > 0 {
+			cfgs = append(cfgs, cf)
+			depth = max(depth, cf.Depth[tier])
+		}
 	}
 	for _, cf := range configs {
 		cf.build()
-		cf.items = grammar(domain(append(append([]string{}, cf.Docs...), "R1", "R2"), nil, 3), false, false)
+		cf.items = stateGrammar(domain(append(append([]string{}, cf.Docs...), "R1", "R2"), nil, 3))
 	}
 	if c.ReplayPath != "" {
 		var r struct {
@@ -1787,6 +1867,9 @@ func main() {
 	for d := 1; d <= depth && !c.Expired(); d++ {
 		var jobs []job
 		for _, cf := range cfgs {
+			if d > cf.Depth[tier] {
+				continue
+			}
 			for _, p := range level[cf.Name] {
 				for o := range cf.ops {
 					jobs = append(jobs, job{cf, append(append([]int{}, p...), o)})
@@ -1818,7 +1901,11 @@ func main() {
 	}
 	c.Set("B_depth_completed", done)
 	c.Set("B_depth_target", depth)
-	c.Set("B_configurations", len(cfgs))
+	var cfn []string
+	for _, cf := range cfgs {
+		cfn = append(cfn, fmt.Sprintf("%s(depth %d)", cf.Name, cf.Depth[tier]))
+	}
+	c.Set("B_configurations", strings.Join(cfn, " "))
 	c.Set("B_operations", len(cfgs[0].ops))
 	c.Set("B_query_shapes_per_state", len(cfgs[0].items))
 	c.Set("B_histories", transitions)
@@ -1842,8 +1929,8 @@ func main() {
 		}
 		return p
 	}()), "example_queries": mid(cfgA.items)})
-	c.Finish("A: the complete query grammar (A_query_shapes shapes) on 5 collections holding the 13-document alphabet after a fixed 26-operation history; "+
-		"B: every history over the 13-operation alphabet up to B_depth_completed for each 4-document configuration (no pruning), the configuration's grammar swept on all 5 collections after the last step, id lookup / revision / audit of every document; "+
-		"C: every history up to C_depth over 4 operations at pkg/database level, every (document revision, known state) proof verified, every alteration refused. "+
-		"evaluations = queries and proof verifications executed; distinct = distinct histories; states = distinct reference states (full revision history)", done == depth)
+	c.Finish("A: the complete query grammar (A_query_shapes shapes) on 5 collections holding the 13-document alphabet after a fixed 28-operation history; "+
+		"B: every history over the 12-operation alphabet up to the depth given in B_configurations for each 4-document configuration (no pruning), the configuration's grammar (B_query_shapes_per_state shapes; a 26-query light sweep after an operation that left the reference state unchanged) on all 5 collections after the last step, then id lookup / revision / audit of every document; "+
+		"C: every history up to C_depth over 4 operations at pkg/database level, every (document revision, known state) proof verified, every alteration of the operator set refused. "+
+		"evaluations = queries and proof verifications executed; distinct = distinct histories; states = distinct reference states (full revision history + index state)", done == depth)
 }
